@@ -106,3 +106,62 @@ let build_dag (ns : node array) : kcell array result =
   match !err with None -> Ok out | Some e -> Err e
 let commas f l = if l = [] then "-" else String.concat "," (List.map f l)
 let dec_of_n n = int_of_n n |> string_of_int
+
+(* ---- typed values / store ops of C06, C07 ---- *)
+let colon s = String.split_on_char ':' s
+let cell_tag (c : cell) : string =
+  let Cell (_, bits, refs) = c in
+  let rec take k l = if k = 0 then [] else (match l with [] -> [] | x :: r -> x :: take (k - 1) r) in
+  Printf.sprintf "c%d.%d.%s" (List.length bits) (List.length refs) (str_of_bits (take 16 bits))
+let parse_addr (f : string list) : addr =
+  match f with
+  | ["none"] -> AddrNone
+  | ["ext"; len; v] -> AddrExt (z_of_hex v, z_of_hex len)
+  | ["std"; wc; h] -> AddrStd (None, z_of_hex wc, bytes_of_hex h)
+  | ["std"; wc; h; d; p] -> AddrStd (Some (z_of_hex d, z_of_hex p), z_of_hex wc, bytes_of_hex h)
+  | _ -> failwith "addr"
+let show_addr = function
+  | AddrNone -> "none"
+  | AddrExt (v, len) -> Printf.sprintf "ext:%s:%s" (hex_of_z len) (hex_of_z v)
+  | AddrStd (None, wc, h) -> Printf.sprintf "std:%s:%s" (hex_of_z wc) (hex_of_bytes h)
+  | AddrStd (Some (d, p), wc, h) -> Printf.sprintf "std:%s:%s:%s:%s" (hex_of_z wc) (hex_of_bytes h) (hex_of_z d) (hex_of_z p)
+type xop = XS of sop | XSnake of n list
+let parse_op (trees : cell array) (t : string) : xop =
+  match colon t with
+  | ["u"; w; v] -> XS (OVal (VUint (z_of_hex w, z_of_hex v)))
+  | ["i"; w; v] -> XS (OVal (VInt (z_of_hex w, z_of_hex v)))
+  | ["vu"; k; v] -> XS (OVal (VVarUint (z_of_hex k, z_of_hex v)))
+  | ["vi"; k; v] -> XS (OVal (VVarInt (z_of_hex k, z_of_hex v)))
+  | ["c"; v] -> XS (OVal (VCoins (z_of_hex v)))
+  | ["b"; v] -> XS (OVal (VBit (v = "1")))
+  | ["bits"; v] -> XS (OVal (VBits (bits_of_str v)))
+  | ["bytes"; v] -> XS (OVal (VBytes (bytes_of_hex v)))
+  | ["str"; v] -> XS (OString (bytes_of_hex v))
+  | ["ref"; i] -> XS (OVal (VRef trees.(int_of_string i)))
+  | ["mref"; "n"] -> XS (OVal (VMaybeRef None))
+  | ["mref"; i] -> XS (OVal (VMaybeRef (Some trees.(int_of_string i))))
+  | "addr" :: f -> XS (OVal (VAddr (parse_addr f)))
+  | ["cell"; i] -> XS (OCell trees.(int_of_string i))
+  | ["slice"; i; sb; sr] ->
+    let s = begin_parse trees.(int_of_string i) in
+    let rec drop k l = if k = 0 then l else (match l with [] -> [] | _ :: r -> drop (k - 1) r) in
+    XS (OSlice { s_bits = drop (int_of_string sb) s.s_bits; s_refs = drop (int_of_string sr) s.s_refs })
+  | ["snake"; v] -> XSnake (bytes_of_hex v)
+  | _ -> failwith ("op " ^ t)
+let parse_ty (t : string) : ttype =
+  match colon t with
+  | ["u"; w] -> TUint (z_of_hex w) | ["i"; w] -> TInt (z_of_hex w)
+  | ["vu"; k] -> TVarUint (z_of_hex k) | ["vi"; k] -> TVarInt (z_of_hex k)
+  | ["c"] -> TCoins | ["b"] -> TBit
+  | ["bits"; n] -> TBits (nat_of_int (int_of_string n)) | ["bytes"; n] -> TBytes (nat_of_int (int_of_string n))
+  | ["ref"] -> TRef | ["mref"] -> TMaybeRef | ["addr"] -> TAddr
+  | _ -> failwith ("ty " ^ t)
+let show_val = function
+  | VUint (_, v) | VInt (_, v) | VVarUint (_, v) | VVarInt (_, v) | VCoins v -> hex_of_z v
+  | VBit b -> if b then "1" else "0"
+  | VBits l -> str_of_bits l
+  | VBytes bs -> hex_of_bytes bs
+  | VRef c -> cell_tag c
+  | VMaybeRef None -> "n"
+  | VMaybeRef (Some c) -> cell_tag c
+  | VAddr a -> show_addr a
